@@ -707,6 +707,54 @@ func c26partB(r *engine.Run) *c26wide {
 			}
 		}
 	}
+	// a peers.json that holds as many / more peers than Max (e.g. Max was lowered between runs): after the load the
+	// bound must hold, whichever entries the map iteration keeps; with and without a default connection on top
+	pool := []string{"11.1.1.1:6000", "11.1.1.2:6000", "11.1.1.3:6000", "11.1.1.4:6000", "11.1.1.5:6000", "11.1.1.6:6000"}
+	for _, max := range []int{2, 3} {
+		for n := max - 1; n <= max+3; n++ {
+			for _, age := range []int64{10, 25 * 3600} {
+				for _, withDefault := range []bool{false, true} {
+					vtime.SetUnix(c26T0)
+					dir := freshDir()
+					m := map[string]interface{}{}
+					for _, a := range pool[:n] {
+						m[a] = map[string]interface{}{"Addr": a, "LastSeen": c26T0 - age, "HasIncomingPort": true}
+					}
+					js, _ := json.Marshal(m)
+					os.WriteFile(filepath.Join(dir, pex.PeerCacheFilename), js, 0o600)
+					var defaults []string
+					if withDefault {
+						defaults = []string{valid}
+					}
+					c := cs{fmt.Sprintf("peers.json/%d-entries/Max=%d/default=%v/age=%ds", n, max, withDefault, age), "", false, nil}
+					w.evals++
+					px, err := c26newPex(c26cfg{Max: max}, dir, defaults, "")
+					if err != nil {
+						w.outcomes.Add("peers.json/oversize:New-fails:" + err.Error())
+						continue
+					}
+					v, _, _ := c26view(px)
+					for _, f := range model.JudgeList(v, max, false, "Pex.New:peers.json-with-many-entries") {
+						r.Failf(f.Sig, c, "%s: %s", c.Entrance, f.Detail)
+					}
+					if withDefault {
+						ok := false
+						for _, p := range v {
+							ok = ok || (p.Key == valid && p.Trusted)
+						}
+						if !ok {
+							r.Failf("Pex.New:default-connection-missing-or-untrusted", c, "%s: %v", c.Entrance, v)
+						}
+					}
+					if n > max {
+						w.outcomes.Add("peers.json/oversize:loaded-within-bound")
+					} else {
+						w.outcomes.Add("peers.json/fits:loaded")
+					}
+				}
+			}
+		}
+	}
 	// timestamp tie (no auto-tick): two untrusted peers added in the same second are both "oldest"; which one a
 	// full list evicts depends on map iteration order — either is fine, a trusted one or a fresh one is not.
 	for rep := 0; rep < 8; rep++ {
@@ -830,7 +878,7 @@ func c26(r *engine.Run) {
 	}
 	wo := wide.outcomes.Map()
 	for _, n := range []string{"AddPeer:stored", "AddPeer:refused:port-below-1024", "AddPeer:refused:loopback-not-allowed", "AddPeer:refused:multicast-ip",
-		"AddPeer:refused:link-local-ip", "AddPeer:refused:not-ip:port", "AddPeers/2:stored", "peers.json:stored", "CustomPeersFile:New-fails", "tie:evicted-one-of-the-oldest"} {
+		"AddPeer:refused:link-local-ip", "AddPeer:refused:not-ip:port", "AddPeers/2:stored", "peers.json:stored", "CustomPeersFile:New-fails", "tie:evicted-one-of-the-oldest", "peers.json/oversize:loaded-within-bound"} {
 		if wo[n] == 0 {
 			r.Broken("vacuous: outcome class %q never observed in the single-step product (histogram %v)", n, wo)
 		}
